@@ -12,7 +12,8 @@ CHECKS = {
              "the documented contracts; z3. Bounds: uncut sequences <= 2 (quick) / 3 (thorough) tokens, single constructs from a "
              "top-level loop head <= 3 / 4 tokens; every prefix of every depth-1 statement skeleton (quick); thorough: every prefix and every "
              "one-token substitution (token kind symbolic) of the depth-2 skeletons and one symbolic token inserted at every position of the "
-             "depth-1 skeletons. Longer inputs and rowan are outside the claim.",
+             "depth-1 skeletons; the validation pass (oq3_syntax::validation::validate from MIR, run by both entry points) on 10 literal-postfix "
+             "shapes. Longer inputs, deep nesting and rowan (tree building, Drop) are outside the claim.",
         technique="symbolic execution of rustc MIR (path enumeration) + z3 SMT feasibility/obligation queries, native replay",
         design="6/C01"),
 }
@@ -101,7 +102,8 @@ CHECKS.update({
              "tokens are exactly the lexemes with the expected kinds and exact texts, nothing but trivia in between, no lexical error; each "
              "keyword is also placed next to one fully symbolic character (keyword kind iff the character cannot continue an identifier); the "
              "run-to-end-of-line lexemes (pragma, #pragma, annotation, line comment with symbolic text) end before LF, CRLF and CR and the next "
-             "line starts a new lexeme.",
+             "line starts a new lexeme; block comments (whose text may contain `/*`) end at the first `*/`; the version header followed by `;` "
+             "with every separator incl. comments.",
         note="Trusted: lexeme grammar excerpt, MIR dump, string model, Unicode tables clipped to the stated code-point range, z3. Bounds: "
              "symbolic characters in U+0000..U+03FF, identifiers <= 3 chars, literals <= 5 chars, pairs of lexemes (quick: every class against "
              "12 representative neighbours on both sides; thorough: all pairs).",
